@@ -42,21 +42,28 @@ Stateful == {"TRANSFER_TOKENS", "CREATE_CONTRACT", "SET_DELEGATE"}
 NameOf(l, f, s, p) == [k \in 1..l |-> IF k = p THEN s ELSE f]
 Names == UNION {{NameOf(l, f, s, p) : f \in Fills, s \in Specials, p \in {1, (l + 1) \div 2, l}} : l \in NameLens}
 
-RECURSIVE BodiesOf(_, _, _), NodesOf(_, _)
-NodesOf(s, d) ==      \* nodes made of exactly s nodes, nested at most d deep
-  (IF s = 1 THEN {<<"I", p>> : p \in Leaves} ELSE {})
-  \cup (IF d = 0 THEN {}
-        ELSE LET inner == [j \in 0..s-1 |-> BodiesOf(j, d - 1, MaxSeq)] IN
-             {<<"C1", b>> : b \in inner[s-1]}
-             \cup {<<"L", k, b>> : k \in LamKinds, b \in inner[s-1]}
-             \cup UNION {{<<"C2", b1, b2>> : b1 \in inner[j], b2 \in inner[s-1-j]} : j \in 0..s-1})
-BodiesOf(s, d, m) ==  \* bodies of at most m nodes with exactly s nodes in total
-  IF s = 0 THEN {<<>>}
-  ELSE IF m = 0 THEN {}
-  ELSE UNION {LET ns == NodesOf(k, d)
-                  rs == BodiesOf(s - k, d, m - 1)
-              IN {<<n>> \o r : n \in ns, r \in rs} : k \in 1..s}
-Codes == UNION {BodiesOf(s, CodeDepth, MaxSeq) : s \in 0..CodeSize}
+\* Code trees are generated level by level (nesting depth), every set tagged with the node count of
+\* its members, <<size, thing>>, so that each level is computed once from the level below.
+OfSize(T, k) == {x[2] : x \in {y \in T : y[1] = k}}
+RECURSIVE SeqsOf(_, _)
+SeqsOf(nodes, m) ==    \* bodies of at most m nodes drawn from `nodes`, at most CodeSize nodes in total
+  IF m = 0 THEN {<<0, <<>>>>}
+  ELSE LET r == SeqsOf(nodes, m - 1) IN
+       {<<0, <<>>>>}
+       \cup UNION {UNION {LET ns == OfSize(nodes, k)
+                              rs == OfSize(r, j)
+                          IN {<<k + j, <<n>> \o q>> : n \in ns, q \in rs} : j \in 0..CodeSize - k} : k \in 1..CodeSize}
+RECURSIVE Level(_)
+Level(d) ==            \* all bodies nested at most d deep
+  LET prev == IF d = 0 THEN {} ELSE Level(d - 1)
+      nodes == {<<1, <<"I", p>>>> : p \in Leaves}
+               \cup UNION {LET bs == OfSize(prev, s - 1)
+                           IN {<<s, <<"C1", b>>>> : b \in bs} \cup {<<s, <<"L", k, b>>>> : k \in LamKinds, b \in bs} : s \in 1..CodeSize}
+               \cup UNION {UNION {LET b1s == OfSize(prev, j)
+                                      b2s == OfSize(prev, s - 1 - j)
+                                  IN {<<s, <<"C2", b1, b2>>>> : b1 \in b1s, b2 \in b2s} : j \in 0..s-1} : s \in 1..CodeSize}
+  IN SeqsOf(nodes, MaxSeq)
+Codes == {x[2] : x \in Level(CodeDepth)}
 
 (* ---------------- the checker, step by step ---------------- *)
 VARIABLES name, code,          \* the input, fixed after Init
